@@ -21,6 +21,8 @@ def gen_session_case(prop: str, seed: int, tier: str, *, profile: str = "edit", 
                      fail: bool | None = None) -> dict:
     st = Streams(seed)
     cfg = gen.swarm(st("swarm"), tier, profile=profile)
+    # VALUE arguments that carry an end-of-line comment: only where refusal / validity is the question
+    cfg["commented_values"] = prop in ("C05", "C08")
     if fail is True:
         cfg["fail_rate"] = st("swarm").choice([0.2, 0.4, 0.6])
     elif fail is False:
